@@ -3,11 +3,12 @@ import CpModel.Tls.Canon
 import CpModel.Opp.Canon
 import CpModel.Dns.Canon
 import CpModel.Ssh.Canon
+import CpModel.Tls.Ssl2Canon
 /- Class-level ops: P (parse_immutable), X (parse_exact_size), M (parse_mutable), R (parse + recompose). -/
 namespace Cp.Drv
 open Cp.Tls
 
-def allClasses : List DrvClass := tlsClasses ++ Cp.Opp.oppClasses ++ Cp.Dns.dnsClasses ++ Cp.Ssh.sshClasses
+def allClasses : List DrvClass := tlsClasses ++ Cp.Opp.oppClasses ++ Cp.Dns.dnsClasses ++ Cp.Ssh.sshClasses ++ Cp.Ssl2.ssl2Classes
 
 def findClass (name : String) : Option DrvClass := allClasses.find? (·.name == name)
 
